@@ -111,6 +111,32 @@ fn observe<T: ?Sized>(ty: &str, owned: bool, addr_text: &str, aix: u64) {
         "schema_name":name,"schema_props":props,"schema_required":required}));
 }
 
+/// A contract's state holding handles of every kind: one schema generator run over all of them.
+#[derive(schemars::JsonSchema)]
+#[allow(dead_code)]
+struct Store {
+    a: Remote<'static, concrete::Ctr>,
+    b: Remote<'static, generic::GCtr<sylvia::cw_std::Empty>>,
+    c: Remote<'static, dyn iface::Plain<Error = StdError>>,
+    d: Remote<'static, dyn iface_assoc::WithAssoc<Error = StdError, Item = sylvia::cw_std::Empty>>,
+    e: Remote<'static, ()>,
+}
+
+fn observe_store() {
+    let root = schemars::schema_for!(Store);
+    let defs: Vec<String> = root.definitions.keys().cloned().collect();
+    let refs: Vec<String> = root.schema.object.as_ref().map(|o| o.properties.values().map(|p| match p {
+        schemars::schema::Schema::Object(so) => so.reference.clone()
+            .or_else(|| so.subschemas.as_ref().and_then(|s| s.all_of.as_ref()).and_then(|v| v.first()).and_then(|x| match x {
+                schemars::schema::Schema::Object(y) => y.reference.clone(),
+                _ => None,
+            }))
+            .unwrap_or_else(|| "inline".to_string()),
+        _ => "bool".to_string(),
+    }).collect()).unwrap_or_default();
+    verif_rt::emit(json!({"ev":"RemoteStore","fields":5,"defs":defs,"refs":refs}));
+}
+
 fn main() {
     let a: Vec<String> = std::env::args().collect();
     let stim = verif_rt::read_ndjson(&a[1]);
@@ -129,5 +155,6 @@ fn main() {
             _ => observe::<()>(ty, owned, &text, aix),
         }
     }
+    observe_store();
     verif_rt::close_trace();
 }
